@@ -3,45 +3,51 @@
    the ite branch of Operator, the priming branch of Unary), translated on
    every run into [g_flatten] of coq/gen/BitvectorGen.v, compute the
    threading model of theories/L2Compile/Thread.v on every arithmetic-scope
-   tree.  The untranslated methods (Var, Num, Bool, Binary) and the opaque
-   branches are the Section variable [ext_flatten]: the statements hold for
-   every such function, under the hypothesis [leaves_ok] that on the leaves
-   of the tree it returns bits and leaves the memory alone. *)
+   tree.  The hypothesis [leaves_ok] says what flatten returns on the LEAVES
+   of the tree: bits, memory untouched.  It is discharged for numerals and
+   for variables without a definition by the translated Num / Var .flatten
+   (BitvectorLeafBridge.v, [leaf_num], [leaf_var]); for a node of an
+   untranslated class (Binary, the opaque branches) it is a hypothesis on
+   the Section variable [ext_flatten] ([leaves_ext]). *)
 From Coq Require Import String ZArith List Bool Lia.
 From Omega Require Import L1Circuits.Circuits L1Circuits.Deep L1Circuits.PyBits
-  L1Circuits.PyBitsProofs L2Compile.Expr L2Compile.Emit L2Compile.Thread.
+  L1Circuits.PyBitsProofs L1Circuits.PyStr L2Compile.Expr L2Compile.Emit L2Compile.Thread
+  L2Compile.Leaf.
 From OmegaGen Require Import BitvectorGen.
-From OmegaGP Require Import BitvectorBridge.
+From OmegaGP Require Import BitvectorBridge BitvectorLeafBridge.
 Import ListNotations.
 Open Scope Z_scope.
 
 Section FlatBridge.
-Variable kwargs : Type.
-Variable kw_set_prime : kwargs -> kwargs.
-Variable ext_flatten : pnode -> option (list bx) -> kwargs
-                       -> option (fres * option (list bx)).
+Variable defs : Type.
+Variable defs_mem : defs -> string -> bool.
+Variable var_id : string -> nat.
+Variable ext_flatten def_flatten : pnode -> option (list bx) -> kwargs defs
+                                   -> option (fres * option (list bx)).
 
-Notation flat := (g_flatten kwargs kw_set_prime ext_flatten).
+Notation flat := (g_flatten defs defs_mem var_id ext_flatten def_flatten).
+Notation kwargs := (kwargs defs).
 
 (* classes whose flatten is not translated *)
 Definition is_ext (u : pnode) : bool :=
   match u with
   | PNode cls _ _ =>
       negb (existsb (String.eqb cls)
-              ["Arithmetic"%string; "Comparator"%string; "Operator"%string; "Unary"%string])
+              ["Arithmetic"%string; "Comparator"%string; "Operator"%string; "Unary"%string;
+               "Binary"%string; "Var"%string; "Num"%string; "Bool"%string])
   end.
 
 Fixpoint leaves_ok (e : anode) (kw : kwargs) : Prop :=
   match e with
   | ALeaf u bits =>
-      is_ext u = true /\
-      forall mem, ext_flatten u (Some mem) kw = Some (RBits bits, Some mem)
+      forall fuel mem r st, flat fuel u (Some mem) kw = Some (r, st) ->
+        r = RBits bits /\ st = Some mem
   | APrime op a =>
       (op = "X"%string \/ op = "'"%string) /\ leaves_ok a (kw_set_prime kw)
   | AArith o op a b =>
       aop_of_string op = Some o /\ leaves_ok a kw /\ leaves_ok b kw
   | AIte g gb a b =>
-      (is_ext g = true /\ exists st, ext_flatten g None kw = Some (RStr gb, st)) /\
+      (forall fuel r st, flat fuel g None kw = Some (r, st) -> r = RStr gb) /\
       leaves_ok a kw /\ leaves_ok b kw
   end.
 
@@ -78,7 +84,7 @@ Theorem flatten_is_threading_model : forall e fuel kw mem r st,
 Proof.
   induction e as [u bits|op a IH|o op a IHa b IHb|g gb a IHa b IHb];
     intros fuel kw mem r st L H; (destruct fuel as [|fuel]; [discriminate|]); cbn [node_of] in H.
-  - destruct L as [X L]. rewrite flat_ext, L in H by exact X. injection H as <- <-. auto.
+  - exact (L _ _ _ _ H).
   - destruct L as [Hop L]. cbn [g_flatten] in H. eval_strings_in H. cbv beta iota in H.
     assert (T : (String.eqb op "X" || String.eqb op "'")%bool = true)
       by (destruct Hop as [-> | ->]; reflexivity).
@@ -104,17 +110,17 @@ Proof.
     cbn [d_aflat]. destruct (d_aflat a mem) as [p m1]. cbn [fst snd].
     destruct (d_aflat b m1) as [q m2]. cbn [fst snd].
     destruct (d_flatten_arithmetic o p q (length m2)) as [rr cells]. auto.
-  - destruct L as ((Xg & stg & Lg) & La & Lb). cbn [g_flatten] in H. cbn [existsb] in H. eval_strings_in H.
+  - destruct L as (Lg & La & Lb). cbn [g_flatten] in H. cbn [existsb] in H. eval_strings_in H.
     cbn [orb negb] in H. cbv beta iota in H.
     change (py_index [g; node_of a; node_of b] 0) with (Some g) in H.
     change (py_index [g; node_of a; node_of b] 1) with (Some (node_of a)) in H.
     change (py_index [g; node_of a; node_of b] 2) with (Some (node_of b)) in H.
     cbv beta iota zeta in H.
-    destruct fuel as [|fuel]; [discriminate|].
-    rewrite (flat_ext fuel g None kw Xg), Lg in H. cbv beta iota zeta in H.
-    destruct (flat (S fuel) (node_of a) (Some mem) kw) as [[r1 st1]|] eqn:E1; [|discriminate].
+    destruct (flat fuel g None kw) as [[rg stg]|] eqn:Eg; [|discriminate].
+    rewrite (Lg _ _ _ Eg) in H. cbv beta iota zeta in H.
+    destruct (flat fuel (node_of a) (Some mem) kw) as [[r1 st1]|] eqn:E1; [|discriminate].
     destruct (IHa _ _ _ _ _ La E1) as [-> ->]. cbv beta iota zeta in H.
-    destruct (flat (S fuel) (node_of b) (Some (snd (d_aflat a mem))) kw) as [[r2 st2]|] eqn:E2; [|discriminate].
+    destruct (flat fuel (node_of b) (Some (snd (d_aflat a mem))) kw) as [[r2 st2]|] eqn:E2; [|discriminate].
     destruct (IHb _ _ _ _ _ Lb E2) as [-> ->]. cbv beta iota zeta in H.
     minv H. injection H as <- <-.
     match goal with E : g_equalize_width _ _ _ = Some _ |- _ =>
@@ -149,5 +155,49 @@ Proof.
     apply g_flatten_comparator_ok in E; destruct E as (o & Ho & E) end.
   injection E as -> _. exists o. split; [exact Ho|]. unfold d_cmp_flat.
   destruct (d_aflat a []) as [p m1]. cbn [fst snd]. destruct (d_aflat b m1) as [q m2]. auto.
+Qed.
+
+(* ---- the leaf hypothesis, discharged *)
+(* a node of an untranslated class *)
+Lemma leaf_ext : forall u bits kw, is_ext u = true ->
+  (forall mem, ext_flatten u (Some mem) kw = Some (RBits bits, Some mem)) ->
+  leaves_ok (ALeaf u bits) kw.
+Proof.
+  intros u bits kw X L fuel mem r st H. destruct fuel as [|fuel]; [discriminate|].
+  rewrite flat_ext, L in H by exact X. injection H as <- <-. auto.
+Qed.
+
+(* a numeral: translated Num.flatten + int_to_twos_complement *)
+Lemma leaf_num : forall v z kw, py_int v = Some z ->
+  leaves_ok (ALeaf (PNode "Num" v []) (num_bits z)) kw.
+Proof.
+  intros v z kw Hz fuel mem r st H. destruct fuel as [|fuel]; [discriminate|].
+  apply num_flatten_is_model in H. destruct H as (z' & Hz' & -> & ->).
+  rewrite Hz in Hz'. injection Hz' as <-. auto.
+Qed.
+
+(* a variable without a definition: translated Var.flatten,
+   var_to_twos_complement, _append_sign_bit, _is_bool_var *)
+Lemma leaf_var : forall name t bits kw, k_t kw = Some t ->
+  nodef defs defs_mem kw name = true ->
+  d_var_flatten var_id t name (py_truth (k_prime kw)) = Some (RBits bits) ->
+  leaves_ok (ALeaf (PNode "Var" name []) bits) kw.
+Proof.
+  intros name t bits kw Ht Hd Hv fuel mem r st H. destruct fuel as [|fuel]; [discriminate|].
+  rewrite (var_flatten_is_model defs defs_mem var_id ext_flatten def_flatten
+             fuel name (Some mem) kw t Ht Hd), Hv in H.
+  injection H as <- <-. auto.
+Qed.
+
+(* a Boolean variable as the guard of an ite *)
+Lemma guard_var : forall name t gb kw fuel r st, k_t kw = Some t ->
+  nodef defs defs_mem kw name = true ->
+  d_var_flatten var_id t name (py_truth (k_prime kw)) = Some (RStr gb) ->
+  flat fuel (PNode "Var" name []) None kw = Some (r, st) -> r = RStr gb.
+Proof.
+  intros name t gb kw fuel r st Ht Hd Hv H. destruct fuel as [|fuel]; [discriminate|].
+  rewrite (var_flatten_is_model defs defs_mem var_id ext_flatten def_flatten
+             fuel name None kw t Ht Hd), Hv in H.
+  now injection H as <- _.
 Qed.
 End FlatBridge.
